@@ -39,7 +39,8 @@ func (v *Vue) evaluate(ctx VueContext, nodes []*html.Node, depth int) ([]*html.N
 			tag := node.Data
 
 			// Check for v-once early - skip if already rendered
-			if helpers.HasAttr(node, "v-once") {
+			// (an element that also carries v-for is checked per iteration, once v-for is expanded)
+			if helpers.HasAttr(node, "v-once") && !helpers.HasAttr(node, "v-for") {
 				vSeenID := helpers.GetAttr(node, "v-once-id")
 				if ctx.seen[vSeenID] {
 					// This v-once element has already been rendered, skip it
